@@ -80,6 +80,11 @@ def programs(tier: str):
             continue
         for ending, cancels in bodies:
             yield {"block": {"kind": "ascope", "supply": [], "disp": [dict(beh2[i]) for i in combo], "pause": bool(cancels), "ending": ending}, "cancels": cancels, "batch": 2}
+    # the cancellation of the body injected between two loop iterations
+    beh_f = [b for b in _behaviours(False) if b["yields"] == "none"]
+    for k in (1, 2):
+        for combo in itertools.combinations_with_replacement(range(len(beh_f)), k):
+            yield {"block": {"kind": "ascope", "supply": [], "disp": [dict(beh_f[i]) for i in combo], "pause": True, "ending": "return"}, "cancels": 1, "fine": True}
     # states yielded as a non-sequence iterable (generator, dict view)
     for y in ("gen", "values", "falsy"):
         for other in (None, {"enter": "ok", "exit": "ok", "yields": "one"}):
@@ -312,7 +317,7 @@ def _reaches(caught, target) -> bool:
 def execute(program, ch: Chooser) -> Result:  # noqa: C901, PLR0912, PLR0915
     if "reuse" in program:
         return _reuse(program, ch)
-    r = Run(program, ch, cancels=program["cancels"], batch=program.get("batch", 1))
+    r = Run(program, ch, cancels=program["cancels"], batch=program.get("batch", 1), fine=program.get("fine", False))
     viols: list[dict] = []
     try:
         r.execute()
